@@ -972,7 +972,16 @@ int __wrap_close(int fd)
 	}
 	int f = hooks.fid_of_osfd ? hooks.fid_of_osfd(fd) : 0;
 	tr("\"e\":\"Close\",\"f\":%d,\"n\":%d}", f, fd);
-	return __real_close(fd);
+	int r = __real_close(fd);
+	/* the descriptor table is shared: another thread may be handed this number next */
+	if (mt() && T[me].st == ST_RUN && cur == me) {
+		int e = errno;
+		__real_pthread_mutex_lock(&M);
+		pick_and_wait();
+		__real_pthread_mutex_unlock(&M);
+		errno = e;
+	}
+	return r;
 }
 
 int __wrap_pipe(int *p)
